@@ -1,5 +1,5 @@
 import Secp.Proofs.RandomSpec
-import Secp.Proofs.MiscTies
+import Secp.Proofs.RandomTies
 /-!
 # C18 — random scalars are non-zero, canonical and correct for every entropy stream
 
